@@ -30,3 +30,17 @@ package eni
 
 //@ # the fast path marks the owner under the lock, before the reply goroutine is spawned: nobody can be offered that address in between
 //@ guard go Local.Allocate$1 in Allocate: (ipv4 == nil || ipv4.podID == cni.PodID) && (ipv6 == nil || ipv6.podID == cni.PodID)
+
+//@ # an address the cloud no longer reports for the interface is marked invalid whether or not a pod holds it, and
+//@ # an invalid address is never offered (PeekAvailable offers only valid ones).
+//@ # c01remote: the set syncIPLocked builds from the cloud's answer (its members are exactly the reported addresses)
+//@ ghost c01remote map[netip.Addr]sets.Empty
+//@ func syncIPLocked
+//@   modifies IP.status
+//@   at call sets.New: ghost c01remote = result
+//@   ensures forall k netip.Addr :: k in lo && old(lo[k].status) == 1 && lo[k].ip == k && !(k in c01remote) ==> lo[k].status == 2
+//@   ensures forall k netip.Addr :: k in lo && old(lo[k].status) != 1 ==> lo[k].status == old(lo[k].status)
+//@   loop 1 invariant forall k netip.Addr :: seen(k) && old(lo[k].status) == 1 && lo[k].ip == k && !(k in c01remote) ==> lo[k].status == 2
+//@   loop 1 invariant forall k netip.Addr :: k in lo && old(lo[k].status) != 1 ==> lo[k].status == old(lo[k].status)
+//@   loop 1 invariant forall p *IP :: p.status == old(p.status) || (old(p.status) == 1 && p.status == 2)
+//@ guard call sets.New in syncIPLocked: arg0 == remote
